@@ -111,8 +111,12 @@ Definition string_arms : list arm := [
   arm1 PAny (fun _ => verr EValue)
 ].
 
-Definition timestamp_arms (now : Z) : list arm := [
-  mkArm None [] (fun _ _ => ok (VTime now));
+(** The clock is [None] while the compiler evaluates constants (utils/clock.rs). *)
+Definition read_clock (now : option Z) : res value :=
+  match now with Some t => ok (VTime t) | None => verr ERuntime end.
+
+Definition timestamp_arms (now : option Z) : list arm := [
+  mkArm None [] (fun _ _ => read_clock now);
   arm1 PString (fun _ => unmod);           (* chrono parsers *)
   arm1 PInt (fun a => match a with VInt s => ok (checked_time (s * 1000000000)) | _ => bad end);
   arm1 PUInt (fun a => match a with
@@ -124,7 +128,7 @@ Definition timestamp_arms (now : Z) : list arm := [
 Definition type_arms : list arm := [ arm1 PAny (fun a => ok (as_type a)) ].
 
 (** [construct_type] *)
-Definition construct_type (now : Z) (tname : bytes) (args : list value) : res value :=
+Definition construct_type (now : option Z) (tname : bytes) (args : list value) : res value :=
   if bytes_eqb tname #"bool" then dispatch bool_arms VNull args
   else if bytes_eqb tname #"int" then dispatch int_arms VNull args
   else if bytes_eqb tname #"uint" then dispatch uint_arms VNull args
@@ -285,7 +289,7 @@ Definition ilog (base n : Z) : Z :=      (* floor(log_base n) for n >= 1 *)
      | S f => if p * base <=? n then go f (p * base) (k + 1) else k
      end) 70%nat 1 0.
 
-Definition default_arms (now : Z) (name : bytes) : option (list arm) :=
+Definition default_arms (now : option Z) (name : bytes) : option (list arm) :=
   if bytes_eqb name #"contains" then Some [arm_this1 PString PString (str2 (fun x y => ok (VBool (contains y x))))]
   else if bytes_eqb name #"containsI" then Some [arm_this1 PString PString (ci (fun x y => contains y x))]
   else if bytes_eqb name #"startsWith" then Some [arm_this1 PString PString (str2 (fun x y => ok (VBool (is_prefix y x))))]
@@ -381,7 +385,7 @@ Definition time_arms (name : bytes) : list arm :=
   [arm_this PTime (fun _ => unmod); arm_this1 PTime PString (fun _ _ => unmod)] ++
   (if mem_bytes name dur_accessors then [arm_this PDur (fun _ => unmod)] else []).
 
-Definition call_default (now : Z) (name : bytes) (this : value) (args : list value) : option (res value) :=
+Definition call_default (now : option Z) (name : bytes) (this : value) (args : list value) : option (res value) :=
   if negb (is_default_func name) then None
   else match default_arms now name with
   | Some arms => Some (dispatch arms this args)
@@ -396,7 +400,7 @@ Definition call_default (now : Z) (name : bytes) (this : value) (args : list val
     else if bytes_eqb name #"trimEnd" then Some (string_func (fun _ => unmod) this args)
     else if bytes_eqb name #"min" then Some (min_impl args)
     else if bytes_eqb name #"max" then Some (max_impl args)
-    else if bytes_eqb name #"now" then Some (match args with [] => ok (VTime now) | _ => verr EArgument end)
+    else if bytes_eqb name #"now" then Some (match args with [] => read_clock now | _ => verr EArgument end)
     else if bytes_eqb name #"zip" then Some (zip_impl args)
     else Some unmod
   end.
